@@ -15,6 +15,12 @@
 //   * copy => all properties equal the sibling's, still readable after the sibling is destroyed (ASan),
 // and every NEW state is probed: copy-out + destroy the copy, clone, property-wise object assignment,
 // get-by-name (full names, unique prefixes), print -> parse round trip of colour / attribute values.
+//
+// Jobs "<kind>[++]/d2/s/n": all histories of length 2 over the full alphabet; "<kind>[++]/b3|b4/s/n": length 3 / 4
+// where the prefix uses the builder sub-alphabet and the last op the full alphabet (slice s of n of the last level).
+// Job "property_match": exhaustive sweep of mpt_property_match over small synthetic name tables.
+// The result of every op on a fresh object (reference for the independence oracle, discovery of attribute-text
+// properties) is computed in a forked child, so an op that kills the process is reported once and then excluded.
 #include <sstream>
 #include <cmath>
 #include <cerrno>
@@ -35,8 +41,9 @@
 using namespace mc;
 const char *mc_id = "C20";
 const char *mc_rule = "history BFS per (layout kind x {C struct, C++ class}): all sequences of set(discovered property/alias/prefix, value alphabet as text and typed values) / reset / reset-all / "
-                      "copy-from-sibling / auto-select up to the depth bound, states deduplicated on the canonical object content; "
-                      "nontrivial = distinct (state, op) transitions whose pre-state differs from a freshly initialised object";
+                      "copy-from-sibling / auto-select of length 2, and of length 3 (quick) / 4 (thorough) with a builder-op prefix and every op last, states deduplicated on the canonical object content; "
+                      "plus all mpt_property_match calls over small name tables; "
+                      "nontrivial = distinct (state, op) transitions whose pre-state differs from a freshly initialised object (match job: tables with >= 2 names)";
 
 // ------------------------------------------------------------------ targets
 enum Kind { AXIS, LINE, TEXT, GRAPH, WORLD, NKIND };
@@ -542,7 +549,6 @@ struct Model {
 };
 
 // ------------------------------------------------------------------ oracles
-struct Tstate { Run &r; const Model &m; std::string kn; };
 static std::string propsig(const Model &m, const Op &o) { return m.propsig(o); }
 static std::string op_hint(const Model &m, const Op &o) { return m.op_hint(o); }
 static std::string diffdesc(const Model &m, const Snap &a, const Snap &b)
@@ -619,9 +625,9 @@ static bool judged_op(Run &r, const Model &m, Inst &x, size_t opi, const Snap &b
 				if (after.v[p] != want) { fail("readback-differs", "accepted, reads back " + after.v[p] + ", independent conversion of the input gives " + want); return false; }
 				r.count("read-back vs independent conversion checked");
 			} else if (k == 2) {
-				// the conversion layer is C07's subject: an accepted unrepresentable value is counted here, not flagged
-				r.count("accepted value not representable in the property type (C07 domain, not flagged)");
-				if (getenv("C20_DEBUG")) fprintf(stderr, "NOTREP %s -> %s\n", desc().c_str(), after.v[p].c_str());
+				// float overflow to infinity is the conversion layer (C07's subject); digits given to a letter-coded attribute
+				// (graph align) are placeholders of that grammar: counted, not flagged
+				r.count("accepted numeral outside the property type's range (not flagged)");
 			} else r.count("accepted without reference conversion");
 		} else r.count("accepted on attribute-text property (no reference conversion)");
 		if (fr.ret >= 0) {
@@ -925,7 +931,7 @@ void mc_explore(Run &r, const std::string &job)
 					fresh_state = seen.insert(hash128(c)).second;
 					if (fresh_state) {
 						ok = probe(r, m, x, after, d == 0) && probe_objset(r, m, x, after);
-						if (counted || true) { if (counted) ++r.states; }
+						if (counted) ++r.states;
 					}
 				}
 				destroy(x);
